@@ -27,7 +27,7 @@ From YG Require Import Lexer LexerRoundtrip.
 Close Scope Z_scope.
 Open Scope nat_scope.
 
-(* token level, on the lexer model that is compared with Parser/Lex.go token by token on every run: for every token sequence (identifiers, numbers, : | ; < >, %%, character literals, brace-balanced actions, the directive keywords) and every layout - any separators (blanks, tabs, newlines, // comments, /* */ comments incl. runs of stars) between any two tokens, none at all where the two tokens cannot run together - lexing the rendering gives back exactly those tokens (kind, text, and the text that follows, which is how the epilogue is found), then EOF. Not covered by this statement: %union { } and %{ %} bodies, string literals, the escaped quote literal *)
+(* token level, on the lexer model that is compared with Parser/Lex.go token by token on every run: for every token sequence (identifiers, numbers, : | ; < >, %%, character literals, brace-balanced actions, the directive keywords, %union { body } and %{ prologue %}) and every layout - any separators (blanks, tabs, newlines, // comments, /* */ comments incl. runs of stars) between any two tokens, none at all where the two tokens cannot run together - lexing the rendering gives back exactly those tokens (kind, text, and the text that follows, which is how the epilogue is found), then EOF. The %union body and the prologue text are the token values, byte for byte. Not covered by this statement: string literals, the escaped quote literal *)
 Theorem C10_lexer_roundtrip :
   forall (d : doc) (trail : list sepr),
          wf_doc d trail ->
